@@ -56,6 +56,7 @@ Designs ==
         /\ d.kind # "wipe" => d.wipeKeeps                         \* irrelevant dimensions are fixed
         /\ d.kind \notin {"setup-fail", "reconfigure-fail"} => d.rollback
         /\ ~d.ninja => (d.ninjaP = "atomic" /\ d.ninjaTrunc)
+        /\ ~d.ninjaTrunc => (d.chunks = 1 /\ ~d.usesM)
         /\ d.ninja => (d.order = "core-first" /\ ~d.usesE)       \* build.ninja plays no part in recovery
         /\ d.kind = "configure" => (~d.ninja /\ d.order # "core-last")
         /\ d.hist \in {"fresh", "partial"} => d.backup = "copy"   \* nothing to back up
